@@ -15,7 +15,17 @@ import (
 	"time"
 )
 
-const VerifDir = "/verif"
+// VerifDir and RepoDir can be redirected (VERIF_DIR, VERIF_REPO) to run a check on scratch copies,
+// e.g. against a seeded change; the registered commands use the defaults.
+var VerifDir = envOr("VERIF_DIR", "/verif")
+var RepoDir = envOr("VERIF_REPO", "/repo")
+
+func envOr(k, d string) string {
+	if v := os.Getenv(k); v != "" {
+		return v
+	}
+	return d
+}
 
 type Run struct {
 	Property string
